@@ -583,9 +583,38 @@ def g_mexp(rng, P, r, c):
     return {"k": "mexp", "e": m}
 
 
+def gen_constattr(rng):
+    """attributes that depend on constants (and constant chains c2 = e(c)), with or without parameters"""
+    c = {"name": "c", "cat": "constant", "type": "Real", "dims": [], "attrs": {"value": lit("R", rlitval(rng, "R"))}}
+    consts = [c]
+    head = "c"
+    if rng.random() < 0.6:
+        c2 = {"name": "c2", "cat": "constant", "type": "Real", "dims": [],
+              "attrs": {"value": {"k": "exp", "e": g_aff_p(rng, [("c", None, "Real")], 1, False)}}}
+        consts = [c2, c] if rng.random() < 0.5 else [c, c2]
+        head = "c2"
+    P = [{"name": "p", "cat": "param", "type": "Real", "dims": [], "attrs": {"value": lit("R", rlitval(rng, "R"))}}] \
+        if rng.random() < 0.7 else []
+    slots = [(head, None, "Real")] + ([("p", None, "Real")] if P and rng.random() < 0.6 else [])
+    x = {"name": "x", "cat": "alg", "type": "Real", "dims": [], "attrs": {}}
+    for a in rng.sample(["min", "max", "start", "nominal"], rng.randint(1, 2)):
+        for _ in range(20):
+            t = g_aff(rng, slots, rng.choice([0, 1, 2]), False)
+            if has_param(t):
+                break
+        x["attrs"][a] = {"k": "exp", "e": t}
+    if not const_attr({"params": P, "vars": consts + [x]}):
+        x["attrs"]["max"] = {"k": "exp", "e": ["p", head, None]}
+    case = {"kind": "constattr", "params": P, "vars": consts + [x], "via": "generate", "opts": {}}
+    case["text"] = render(case)
+    case["pvs_exact"] = make_pvs(rng, P)
+    return case
+
+
 def gen_case(rng, kind):
-    if kind in ("switch", "extends", "component"):
-        return {"switch": gen_switch, "extends": gen_extends, "component": gen_component}[kind](rng)
+    if kind in ("switch", "extends", "component", "constattr"):
+        return {"switch": gen_switch, "extends": gen_extends, "component": gen_component,
+                "constattr": gen_constattr}[kind](rng)
     BILINEAR[0] = {"single_bilinear": "bilinear", "multilinear": "multilinear"}.get(kind, False)
     try:
         return gen_case_(rng, kind)
@@ -1140,7 +1169,9 @@ def envs(case, res):
     for pv in case["pvs_exact"]:
         env = {}
         # dependent parameters may be declared BEFORE the parameters they refer to: iterate to a fixed point
-        todo = list(case["params"]) * (len(case["params"]) + 1)
+        consts = [v for v in case["vars"] if v["cat"] == "constant"]
+        todo = (list(case["params"]) + consts) * (len(case["params"]) + len(consts) + 1)
+        live = live - {v["name"] for v in consts}
         for p in todo:
             if (p["name"], 0) in env:
                 continue
@@ -1213,6 +1244,23 @@ def judge(case, res):
     return judge_one(case, res)
 
 
+def const_attr(case):
+    """the recorded input class: an attribute (not a constant's own value) mentions a constant symbol"""
+    cn = {v["name"] for v in case["vars"] if v["cat"] == "constant"}
+
+    def mentions(t):
+        if t[0] == "p":
+            return t[1] in cn
+        return any(mentions(x) for x in t[1:] if isinstance(x, list))
+    for v in case["params"] + case["vars"]:
+        for a, d in v["attrs"].items():
+            if d is None or (v["cat"] == "constant" and a == "value"):
+                continue
+            if any(e[0] == "exp" and mentions(e[1]) for e in decl_elems(d, numel(v), v.get("dims") or [])):
+                return True
+    return False
+
+
 def judge_one(case, res, later=False):
     if "crash" in res:
         return ("crash", "interpreter crashed (rc=%s)" % res["crash"])
@@ -1220,6 +1268,9 @@ def judge_one(case, res, later=False):
         if known_shape(case) and res["exc"] in ("KeyError", "NotImplementedError"):
             return ("array-literal-attribute-with-parameter-element",
                     "%s at stage %s: %s" % (res["exc"], res["stage"], res["msg"][:120]))
+        if const_attr(case) and res["msg"].startswith("variable_metadata_function:") and "free" in res["msg"]:
+            return ("constant-dependent-attribute-free-variable",
+                    "variable_metadata_function cannot be built: %s" % res["msg"][-140:].replace("\n", " "))
         return ("exception", "%s at stage %s: %s" % (res["exc"], res["stage"], res["msg"][:200]))
     loc = locate(case, res)
     E = envs(case, res)
@@ -1639,7 +1690,7 @@ def run(ctx):
     # ---- cases
     mix = [("single_affine", ctx.scaled(6, 120)), ("single_mixed", ctx.scaled(5, 70)), ("single_bilinear", ctx.scaled(6, 60)),
            ("multilinear", ctx.scaled(6, 80)), ("matrix2d", ctx.scaled(5, 70)), ("sequence", ctx.scaled(6, 80)),
-           ("switch", ctx.scaled(10, 90)), ("extends", ctx.scaled(6, 60)), ("component", ctx.scaled(5, 40)),
+           ("switch", ctx.scaled(10, 90)), ("extends", ctx.scaled(6, 60)), ("component", ctx.scaled(5, 40)), ("constattr", ctx.scaled(2, 20)),
            ("multi", ctx.scaled(6, 160)),
            ("none", ctx.scaled(3, 30)), ("subst", ctx.scaled(6, 70)), ("known_shape", ctx.scaled(3, 30))]
     cases = []
